@@ -43,17 +43,17 @@ class FakeImg:
         bpp = len(self.mode)
         n = term(w) * term(h) * bpp
         if self.eng.concrete is not None:
-            return bytes(int(w) * int(h) * bpp)
-        return opq(f"raw:{self.name}", SymInt(z3.simplify(n)), ("raw", self.name, w, h, bpp))
+            return self.eng.registry.raw(self, int(w) * int(h) * bpp)
+        return opq(f"raw:{self.name}", SymInt(z3.simplify(n)), dict(kind="raw", img=self, total=z3.simplify(n)))
 
     def save(self, fp, fmt=None, **kw):
         """An encoder writes some non-empty byte string of environment-chosen length."""
         n = self.eng.fresh_int("enc_len", 1, 1 << 24)
         self.saves.append((fmt, kw, n))
         if self.eng.concrete is not None:
-            fp.write(b"\x89" * int(n))
+            fp.write(self.eng.registry.blob(n, dict(kind="enc", img=self, fmt=fmt, kw=kw)))
         else:
-            fp.write(opq(f"enc:{self.name}:{len(self.saves)}", n, ("enc", self.name, fmt, self.size, self.mode)))
+            fp.write(opq(f"enc:{self.name}:{len(self.saves)}", n, dict(kind="enc", img=self, fmt=fmt, kw=kw, total=term(n))))
 
     def close(self):
         self.closed = True
@@ -77,7 +77,7 @@ def b64_stub(eng):
             return base64.standard_b64encode(data)
         n = data.sym_len().e
         ln = z3.simplify(4 * ((n + 2) / 3))
-        return TStr([Opq(eng.fresh_name("b64"), I(0), ln, ("b64", list(data.parts), n))], True)
+        return TStr([Opq(eng.fresh_name("b64"), I(0), ln, dict(kind="b64", src=list(data.parts), n=n, total=ln))], True)
 
     return standard_b64encode
 
@@ -86,8 +86,8 @@ def compress_stub(eng, max_len=1 << 24):
     def compress(data, level=-1):
         n = eng.fresh_int("zlen", 1, max_len)
         if not isinstance(data, TStr):
-            return b"\x78" * int(n)
-        return TStr([Opq(eng.fresh_name("zlib"), I(0), n.e, ("zlib", list(data.parts), level))], True)
+            return eng.registry.blob(n, dict(kind="zlib", src_bytes=bytes(data), level=level))
+        return TStr([Opq(eng.fresh_name("zlib"), I(0), n.e, dict(kind="zlib", src=list(data.parts), level=level, total=n.e))], True)
 
     return compress
 
@@ -144,3 +144,184 @@ def ends_with_newline(out):
 
 def namespace(**kw):
     return types.SimpleNamespace(**kw)
+
+
+SRC_MODES = ["RGB", "RGBA", "L", "P", "PA"]
+
+
+def graphics_render(check, eng, shape, deep=False):
+    """Run the real kitty / iterm2 _render_image on proxy values.
+
+    Returns (out, r_width, r_height, ctx); ctx holds the symbolic inputs and the
+    image doubles so that protocol-level claims (C03) can relate payloads to them.
+    """
+    img = check.img
+    eng.registry = Registry()
+    common, kitty, iterm2 = check.mods["common"], check.mods["kitty"], check.mods["iterm2"]
+    style = shape["style"]
+    rh = shape["r_height"]
+    rw = eng.int("r_width", 1, 1 << 16)
+    img._size = (rw, rh)
+    ow, oh = eng.int("ori_w", 1, 1 << 16), eng.int("ori_h", 1, 1 << 16)
+    img._original_size = (ow, oh)
+    cs = tuple(shape["cell"])
+    common.get_cell_size = lambda: cs
+    mix = eng.bool("mix")
+    level = eng.int("compress", 0, 9)
+    mode = shape["mode"]  # mode of the image handed back by _get_render_data
+    max_raw = 3 * 1024 * shape.get("chunks", 3) + (8 if deep else 0)
+    ctx = dict(rw=rw, rh=rh, ow=ow, oh=oh, cs=cs, mix=mix, level=level, mode=mode, renders=[], strips=[], max_raw=max_raw)
+
+    def get_render_data(self_, im, alpha, *, size=None, pixel_data=True, round_alpha=False, frame=False):
+        w, h = size
+        eng.assume(w * h * len(mode) <= max_raw)
+        r = FakeImg(eng, mode, (w, h), "render")
+        ctx["renders"].append(dict(img=r, src=im, alpha=alpha, size=(w, h), frame=frame))
+        return (r, None, None)
+
+    check.cls._get_render_data = get_render_data
+    if style == "kitty":
+        kitty.standard_b64encode = b64_stub(eng)
+        kitty.compress = compress_stub(eng, max_raw)
+        z = eng.int("z_index", -(2**31) + 1, 2**31 - 1)
+        blend = eng.bool("blend")
+        ctx.update(z=z, blend=blend)
+        src = FakeImg(eng, mode, (ow, oh), "source", filename="/img.png")
+        ctx["src"] = src
+        out = img._render_image(src, None, method=shape["method"], z_index=z, mix=mix, compress=level, blend=blend)
+    else:
+        iterm2.standard_b64encode = b64_stub(eng)
+        type(img)._TERM = shape["term"]
+        readable = eng.bool("file_is_readable")
+        animated = eng.bool("is_animated") if shape["method"] != "anim" else True
+        img._is_animated = bool(animated)
+        from_pil = bool(eng.bool("from_pil"))
+        img._source_type = common.ImageSource.PIL_IMAGE if from_pil else common.ImageSource.FILE_PATH
+        src_mode = SRC_MODES[eng.choice("src_mode", len(SRC_MODES))] if deep else mode
+        src = FakeImg(eng, src_mode, (ow, oh), "source", filename="/img.png")
+        img._source = src if from_pil else "/img.png"
+        flen = eng.int("file_len", 1, 1 << 24)
+        alpha_kind = eng.choice("alpha_kind", 3) if deep else 0
+        alpha = [None, 0.5, "#"][alpha_kind]
+        rff = eng.bool("read_from_file")
+        jq = eng.int("jpeg_quality", -3, 95)
+        img._read_from_file = bool(rff) if eng.concrete is None else bool(rff)
+        img._jpeg_quality = jq
+        ctx.update(src=src, readable=readable, animated=animated, from_pil=from_pil, flen=flen, alpha=alpha, rff=rff, jq=jq, src_mode=src_mode, opened=[])
+
+        def fake_open(path, mode_="rb"):
+            ctx["opened"].append(path)
+            if eng.concrete is not None:
+                import io
+
+                return io.BytesIO(eng.registry.blob(flen, dict(kind="file", path=path), uid=70))
+            return tstr.SxIO(opq("file", flen, dict(kind="file", path=path, total=term(flen))), True)
+
+        def frombytes(m, size, data):
+            f = FakeImg(eng, m, size, f"strip{len(ctx['strips'])}")
+            ctx["strips"].append(dict(img=f, data=data, size=size, mode=m))
+            return f
+
+        iterm2.open = fake_open
+        iterm2.os = namespace(access=lambda p, m: bool(readable), R_OK=4)
+        iterm2.PIL = namespace(Image=namespace(frombytes=frombytes))
+        import warnings
+
+        with warnings.catch_warnings():
+            warnings.simplefilter("ignore")
+            out = img._render_image(src, alpha, method=shape["method"], mix=mix, compress=level)
+    return out, rw, rh, ctx
+
+
+# --------------------------------------------------------------------------------
+# Concrete (replay) mode: the environment stubs hand the real code *recognisable*
+# bytes; the payloads found in its output are decoded the way a terminal would
+# (real base64) and turned back into provenance pieces, so that the very same
+# claims are evaluated on the unmodified code.
+class Registry:
+    def __init__(self):
+        self.blobs = {}  # uid byte -> meta
+        self.raws = []  # (img, bytes)
+        self.uid = 0
+
+    def blob(self, n, meta, uid=None):
+        if uid is None:
+            self.uid += 1
+            uid = self.uid
+            if uid == 70:
+                self.uid += 1
+                uid = self.uid
+        if uid > 120:
+            raise core.EngineLimit("too many opaque objects in one replay")
+        meta = dict(meta, total=I(int(n)))
+        self.blobs[uid] = meta
+        return bytes([uid]) * int(n)
+
+    @staticmethod
+    def pattern(n):
+        return bytes(128 + ((i + i // 127) % 127) for i in range(n))
+
+    def raw(self, img, n):
+        data = self.pattern(n)
+        self.raws.append((img, data))
+        return data
+
+    def reify_bytes(self, data, hint=0):
+        """concrete bytes -> provenance pieces (Opq with concrete offsets)"""
+        data = bytes(data)
+        if not data:
+            return []
+        if data[0] < 128:
+            out, i = [], 0
+            while i < len(data):
+                j = i
+                while j < len(data) and data[j] == data[i]:
+                    j += 1
+                meta = self.blobs.get(data[i])
+                if meta is None:
+                    return [Opq("unknown", I(0), I(len(data)), dict(kind="unknown", total=I(-1)))]
+                m = dict(meta)
+                if "src_bytes" in m:
+                    m["src"] = self.reify_bytes(m["src_bytes"], hint)
+                total = m["total"].as_long()
+                start = 0 if not out else total - (j - i)
+                out.append(Opq(f"blob{data[i]}", I(start), I(j - i), m))
+                i = j
+            return out
+        for img, raw in self.raws:
+            if raw[hint : hint + len(data)] == data:
+                return [Opq("raw", I(hint), I(len(data)), dict(kind="raw", img=img, total=I(len(raw))))]
+        for img, raw in self.raws:
+            k = raw.find(data)
+            if k >= 0:
+                return [Opq("raw", I(k), I(len(data)), dict(kind="raw", img=img, total=I(len(raw))))]
+        return [Opq("unknown", I(0), I(len(data)), dict(kind="unknown", total=I(-1)))]
+
+    def reify_b64_chunks(self, chunk_texts, hint=0):
+        """list of base64 text chunks -> pieces of one b64 object"""
+        import base64
+        import binascii
+
+        text = "".join(chunk_texts)
+        try:
+            data = base64.b64decode(text, validate=True)
+        except (binascii.Error, ValueError):
+            return [Opq("undecodable", I(0), I(len(text)), dict(kind="unknown", total=I(-1)))]
+        meta = dict(kind="b64", n=I(len(data)), total=I(4 * ((len(data) + 2) // 3)), src=self.reify_bytes(data, hint))
+        out, off = [], 0
+        for c in chunk_texts:
+            out.append(Opq("b64", I(off), I(len(c)), meta))
+            off += len(c)
+        return out
+
+
+def literal_text(atoms):
+    out = []
+    for a in atoms:
+        if isinstance(a, str):
+            out.append(a)
+        elif isinstance(a, Opq) and isinstance(a.meta, tuple) and a.meta[0] == "literal":
+            out.append(a.meta[1])
+        else:
+            raise core.EngineLimit("non-literal payload in concrete mode")
+    return "".join(out)
